@@ -918,7 +918,14 @@ impl<Ty: EdgeType, Null: Nullable, Ix: IndexType> Iterator for Neighbors<'_, Ty,
     type Item = NodeIndex<Ix>;
 
     fn next(&mut self) -> Option<Self::Item> {
-        self.0.next().map(|(_, b, _)| b)
+        // the neighbor is the far end of the edge: its target when a row is
+        // scanned along its columns, its source when a column is scanned
+        // along its rows
+        let iter_direction = self.0.iter_direction;
+        self.0.next().map(|(a, b, _)| match iter_direction {
+            NeighborIterDirection::Rows => a,
+            NeighborIterDirection::Columns => b,
+        })
     }
     fn size_hint(&self) -> (usize, Option<usize>) {
         self.0.size_hint()
@@ -993,12 +1000,9 @@ impl<'a, Ty: EdgeType, Null: Nullable, Ix: IndexType> Iterator for Edges<'a, Ty,
 
             let p = to_linearized_matrix_position::<Ty>(row, column, self.node_capacity);
             if let Some(e) = self.node_adjacencies[p].as_ref() {
-                let (a, b) = match self.iter_direction {
-                    Rows => (column, row),
-                    Columns => (row, column),
-                };
-
-                return Some((NodeIndex::new(a), NodeIndex::new(b), e));
+                // the cell (row, column) is the edge row -> column, whichever
+                // way the matrix is scanned
+                return Some((NodeIndex::new(row), NodeIndex::new(column), e));
             }
         }
     }
